@@ -506,11 +506,25 @@ fn mode_splitx(out: &str, rest: &[String]) {
                 let mut chunks: Vec<Option<&[u8]>> = vec![];
                 let mut start = 0;
                 let intr = ci % 5 == 0;
+                // every seventh cut set: runs of two or three interrupted reads, also before the
+                // first byte and before end of input
+                let intr_run = ci % 7 == 3;
+                if intr_run {
+                    chunks.push(None);
+                    chunks.push(None);
+                }
                 for c in 0..(nb - 1) {
                     if mask & (1u64 << c) != 0 {
                         chunks.push(Some(&input[start..=c]));
                         if intr {
                             chunks.push(None);
+                        }
+                        if intr_run {
+                            chunks.push(None);
+                            chunks.push(None);
+                            if c % 2 == 0 {
+                                chunks.push(None);
+                            }
                         }
                         start = c + 1;
                         if delim.is_none() {
@@ -527,7 +541,12 @@ fn mode_splitx(out: &str, rest: &[String]) {
                     }
                 }
                 chunks.push(Some(&input[start..]));
-                if intr {
+                if intr_run {
+                    chunks.push(None);
+                    chunks.push(None);
+                    chunks.push(None);
+                }
+                if intr || intr_run {
                     with_intr += 1;
                 }
                 pairs += 1;
